@@ -240,6 +240,7 @@ func main() {
 	genJs(*repo, *out)
 	genJsGates(*repo, *out)
 	genCli(*repo, *out)
+	genHtmlDefaults(*repo, *out)
 }
 
 func genTables(repo, out string) {
